@@ -1520,7 +1520,7 @@ class StackedScopes:
         """Creates a new subscope (see the :class:`FunctionScope` docstring)."""
         return self.scopes[-1].subscope()
 
-    def loop_scope(self) -> AbstractContextManager[list[SubScope]]:
+    def loop_scope(self) -> AbstractContextManager[Optional[list[SubScope]]]:
         """Creates a new loop scope (see the :class:`FunctionScope` docstring)."""
         return self.scopes[-1].loop_scope()
 
